@@ -3676,6 +3676,9 @@ class CacheDataset(Dataset):
             item = self.keys().index(item)
 
         if isinstance(item, numbers.Integral):
+            # Use a plain int as cache key: diskcache stores numpy integers
+            # under a different (pickled) key than the equal python int.
+            item = int(item)
             if item < 0:
                 item = item + len(self)
                 if item < 0:
